@@ -383,7 +383,7 @@ class CDSInterval(AbstractFeatureInterval):
                 start + 1,
                 end,
                 NULL_COLUMN,
-                self.strand,
+                self.strand if chromosome_relative_coordinates else self.chunk_relative_strand,
                 frame.to_phase(),
                 attributes,
             )
